@@ -857,3 +857,128 @@ def s_acc(ctx, texts, trees=(), on_line=None):
             ctx.mismatch('S-ACC', text, m[:300], i[:300])
     return len(reqs)
 # <<< S-ACC
+
+
+# --- S-HEAP: TokenList.__init__ / group_tokens on real objects vs the heap model (SqlModel/Bookkeeping.lean) ---------
+HEAP_CLASSES = ['Identifier', 'IdentifierList', 'Parenthesis', 'Operation', 'Comparison', 'Function', 'Where', 'Comment']
+
+
+def heap_script(rng):
+    """(leaf values, ops): ops are chosen against a shadow of the real objects so that most calls are valid"""
+    from sqlparse import sql, tokens as T
+    n = rng.randint(1, 9)
+    vals = [rng.choice(['a', 'bc', '', ' ', ',', '(', ')', 'x.y', '\n', 'é', '1']) for _ in range(n)]
+    leaves = [sql.Token(T.Name, v) for v in vals]
+    stmt = sql.Statement(list(leaves))
+    objs = list(leaves) + [stmt]
+    ident = {id(o): i for i, o in enumerate(objs)}
+    ops, results = [], []
+    for _ in range(rng.randint(1, 8)):
+        groups = [i for i, o in enumerate(objs) if o.is_group]
+        self_i = rng.choice(groups) if rng.random() < 0.95 else rng.randrange(len(objs))
+        me = objs[self_i]
+        ln = len(me.tokens) if me.is_group else 3
+        r = rng.random()
+        if r < 0.85 and ln:
+            start = rng.randrange(ln)
+            stop = rng.randint(start, min(ln, start + 3))
+        elif r < 0.93:
+            start = rng.randint(0, ln + 1)
+            stop = rng.randint(0, ln + 1)
+        else:
+            start = ln + rng.randint(0, 2)
+            stop = start
+        incl = rng.random() < 0.7
+        ext = rng.random() < 0.5
+        cls = rng.choice(HEAP_CLASSES)
+        if ext and me.is_group and start < ln and me.tokens[start].is_group and rng.random() < 0.8:
+            cls = type(me.tokens[start]).__name__
+        ops.append('%d:%s:%d:%d:%d:%d' % (self_i, cls, start, stop, incl, ext))
+        try:
+            grp = me.group_tokens(getattr(sql, cls), start, stop, include_end=incl, extend=ext)
+            if id(grp) not in ident:
+                ident[id(grp)] = len(objs)
+                objs.append(grp)
+            results.append(str(ident[id(grp)]))
+        except Exception as e:
+            results.append(type(e).__name__)
+    hv = lambda v: ','.join('%x' % ord(c) for c in v) or '-'
+    dump = []
+    for i, o in enumerate(objs):
+        p = '-' if o.parent is None else str(ident.get(id(o.parent), '?'))
+        if o.is_group:
+            k = '.'.join(str(ident.get(id(c), '?')) for c in o.tokens) or 'E'
+            c = type(o).__name__
+        else:
+            k, c = 'L', 'TokenList'
+        dump.append('%d:%s:%s:%s:%s' % (i, p, k, c, hv(o.value)))
+    line = 'heap ' + ' '.join(hv(v) for v in vals) + ' # ' + ' '.join(ops)
+    return line, 'ok ' + ' '.join(results) + ' | ' + ' '.join(dump), objs
+
+
+def heap_impl(line):
+    """run a `heap …` line on real sqlparse objects -> (canonical answer, problems with the bookkeeping invariant)"""
+    from sqlparse import sql, tokens as T
+    ws = line.split()[1:]
+    k = ws.index('#')
+    pv = lambda w: '' if w == '-' else ''.join(chr(int(x, 16)) for x in w.split(','))
+    vals = [pv(w) for w in ws[:k]]
+    leaves = [sql.Token(T.Name, v) for v in vals]
+    stmt = sql.Statement(list(leaves))
+    objs = list(leaves) + [stmt]
+    ident = {id(o): i for i, o in enumerate(objs)}
+    results = []
+    for w in ws[k + 1:]:
+        a, c, b, e, i_, x = w.split(':')
+        try:
+            me = objs[int(a)]
+            grp = me.group_tokens(getattr(sql, c), int(b), int(e), include_end=i_ == '1', extend=x == '1')
+            if id(grp) not in ident:
+                ident[id(grp)] = len(objs)
+                objs.append(grp)
+            results.append(str(ident[id(grp)]))
+        except Exception as ex:
+            results.append(type(ex).__name__)
+    hv = lambda v: ','.join('%x' % ord(ch) for ch in v) or '-'
+    dump, problems, seen = [], [], set()
+    for i, o in enumerate(objs):
+        p = '-' if o.parent is None else str(ident.get(id(o.parent), '?'))
+        if o.is_group:
+            kk = '.'.join(str(ident.get(id(ch), '?')) for ch in o.tokens) or 'E'
+            c = type(o).__name__
+            for ch in o.tokens:
+                if ch.parent is not o:
+                    problems.append('object %s is a child of %d but its parent is %s' % (ident.get(id(ch)), i, ident.get(id(ch.parent))))
+                if id(ch) in seen:
+                    problems.append('object %s occurs twice' % ident.get(id(ch)))
+                seen.add(id(ch))
+            if o.value != str(o):
+                problems.append('cached value of %d is %r, its text is %r' % (i, o.value, str(o)))
+        else:
+            kk, c = 'L', 'TokenList'
+        dump.append('%d:%s:%s:%s:%s' % (i, p, kk, c, hv(o.value)))
+    return 'ok ' + ' '.join(results) + ' | ' + ' '.join(dump), problems
+
+
+def heap_nonempty_slices(line):
+    ws = line.split()
+    return all(int(w.split(':')[2]) < int(w.split(':')[3]) + int(w.split(':')[4]) for w in ws[ws.index('#') + 1:])
+
+
+def s_heap(ctx, n):
+    """random group_tokens scripts: ids of returned groups, exceptions, and the whole heap (parent, children, class, cached value);
+    the bookkeeping invariant is also evaluated on the real objects (that is the failing-input search when the stream breaks)"""
+    cases = [heap_script(ctx.rng)[0] for _ in range(n)]
+    outs = ctx.model.ask(cases)
+    kinds = {}
+    for line, mo in zip(cases, outs):
+        io, problems = heap_impl(line)
+        ctx.stream('S-HEAP', inputs=1, lines=1)
+        for w in io.split(' | ')[0].split()[1:]:
+            kinds[w if not w.isdigit() else 'ok'] = kinds.get(w if not w.isdigit() else 'ok', 0) + 1
+        if problems:
+            ctx.fail('bookkeeping broken after a script of group_tokens calls on real objects', line, observed=problems[:3],
+                     required='parent = containing group, every object once, cached value = text')
+        if io.split() != mo.split():
+            ctx.mismatch('S-HEAP', line, mo, io)
+    ctx.dist['heap_op_results'] = kinds
